@@ -19,6 +19,7 @@ open Proto Pdf
              op = A<xs> (add_events) | R (reset);  ERR = constructor raises
       ttrials <box|gauss> <edges> <ts> <te> <sigma> <erfx> <erfy> <times>*  -> pd list per trial (one object)
       gcache <cacheOn 0|1> <trial ids> (<raw_k> <norm_k>)*       -> pd list per evaluation (MultiDimGridPDF pd cache)
+      ginterp <ey> <ex> <grid row-major> <ys> <xs>                -> bilinear interpolant (fill 0) at the points
       gmcache <cacheOn> <k:mask,…> (<raw_k> <norm_k>)*           -> pd list per request (mask `*` = get_pd, 0/1 string = evt_mask)
       pprod  <b1> <b2> <ops: string of E|L|R>                  -> list per op (PDFProduct on two internal arrays)
       tmulti <edges> <ts per source> <te per source> <times> <src_idxs> <evt_idxs>  -> pd per value (source loop)
@@ -137,6 +138,11 @@ def answer (line : String) : String :=
       let raw : Nat → List Float := fun k => tab.getD (2 * k) []
       let norm : Nat → List Float := fun k => tab.getD (2 * k + 1) []
       String.intercalate " " ((gRun (gEval (pB on) raw norm) ⟨none, none⟩ (pList pN ids)).map (fListD fF))
+  | ["ginterp", ey, ex, grid, ys, xs] =>
+      let (ey, ex) := (pList pF ey, pList pF ex)
+      let flat := pList pF grid
+      let rows : List (List Float) := (List.range ey.length).map (fun i => (flat.drop (i * ex.length)).take ex.length)
+      fListD fF (((pList pF ys).zip (pList pF xs)).map (fun q => interp2 ey ex rows q.1 q.2))
   | "gmcache" :: on :: reqs :: tabs =>
       -- reqs: comma separated `k:mask`, mask = `*` (all values, get_pd) or a 0/1 string (evt_mask)
       let tab : List (List Float) := tabs.map (pList pF)
